@@ -167,7 +167,9 @@ class RollingAggregation(Blockwise):
 
     @functools.cached_property
     def _meta(self):
-        return self.frame._meta
+        # Same derivation as the abstract RollingReduction: the aggregation
+        # may change dtypes (e.g. mean of an integer column)
+        return make_meta(_rolling_agg(self.frame._meta, *self.operands[1:]))
 
 
 class RollingCount(RollingReduction):
